@@ -9,6 +9,7 @@ package main
 // evaluated after a receive from the same ctx.Done(). Edges pruned this way are never taken by any execution.
 
 import (
+	"go/ast"
 	"go/token"
 	"go/types"
 
@@ -17,6 +18,12 @@ import (
 
 // infeasibleEdges: block -> (index of the successor edge that cannot be taken)+1. Filled by (*Ctx).computeInfeasible.
 var infeasibleEdges = map[*ssa.BasicBlock]int{}
+
+var (
+	nnPhiOpen   = map[*ssa.Phi]bool{}
+	nnFuncCache = map[*ssa.Function]bool{}
+	nnDepth     int
+)
 
 func edgeInfeasible(b *ssa.BasicBlock, k int) bool {
 	v, ok := infeasibleEdges[b]
@@ -146,12 +153,31 @@ func (c *Ctx) computeInfeasible() {
 }
 
 func (c *Ctx) knownNonNil(v ssa.Value, seen map[ssa.Value]bool) bool {
-	if v == nil || seen[v] {
+	if v == nil {
+		return false
+	}
+	if phi, isPhi := v.(*ssa.Phi); isPhi && nnPhiOpen[phi] {
+		return true // a join reached again through its own inputs (`b = append(b, …)` in a loop): decided by its other inputs
+	}
+	if seen[v] {
 		return false
 	}
 	seen[v] = true
 	v = stripConv(v)
 	switch x := v.(type) {
+	case *ssa.Parameter:
+		return c.paramNonNil(x)
+	case *ssa.Slice:
+		// a slice of an array, or of a slice that is not nil, is not nil
+		if pt, isPtr := x.X.Type().Underlying().(*types.Pointer); isPtr {
+			if _, isArr := pt.Elem().Underlying().(*types.Array); isArr {
+				return true
+			}
+		}
+		if _, isSl := x.X.Type().Underlying().(*types.Slice); isSl {
+			return c.knownNonNil(x.X, seen)
+		}
+		return false
 	case *ssa.Alloc, *ssa.MakeClosure, *ssa.Function, *ssa.MakeChan, *ssa.MakeMap, *ssa.MakeSlice:
 		return true
 	case *ssa.MakeInterface:
@@ -165,7 +191,10 @@ func (c *Ctx) knownNonNil(v ssa.Value, seen map[ssa.Value]bool) bool {
 		return false
 	case *ssa.ChangeInterface:
 		return c.knownNonNil(x.X, seen)
+
 	case *ssa.Phi:
+		nnPhiOpen[x] = true
+		defer delete(nnPhiOpen, x)
 		for _, e := range x.Edges {
 			if !c.knownNonNil(e, seen) {
 				return false
@@ -173,6 +202,35 @@ func (c *Ctx) knownNonNil(v ssa.Value, seen map[ssa.Value]bool) bool {
 		}
 		return len(x.Edges) > 0
 	case *ssa.Call:
+		if bi, isB := x.Call.Value.(*ssa.Builtin); isB {
+			// append to a slice that is not nil
+			return bi.Name() == "append" && len(x.Call.Args) > 0 && c.knownNonNil(x.Call.Args[0], seen)
+		}
+		if _, isSl := x.Type().Underlying().(*types.Slice); isSl && !x.Call.IsInvoke() {
+			// a package function that returns a non-nil slice on every path (Pack() -> pack(): a literal appended to)
+			if g := c.StaticCalleeOf(&x.Call); g != nil && g.Pkg == c.Pkg && len(g.Blocks) > 0 && nnDepth < 4 {
+				if r, done := nnFuncCache[g]; done {
+					return r
+				}
+				nnDepth++
+				all, n := true, 0
+				for _, ret := range returnsOf(g) {
+					if len(ret.Results) != 1 {
+						all = false
+						break
+					}
+					n++
+					if !c.knownNonNil(ret.Results[0], map[ssa.Value]bool{}) {
+						all = false
+						break
+					}
+				}
+				nnDepth--
+				nnFuncCache[g] = all && n > 0
+				return all && n > 0
+			}
+			return false
+		}
 		if x.Call.IsInvoke() {
 			if x.Call.Method.Name() == "Err" && x.Call.Method.Pkg() != nil && x.Call.Method.Pkg().Path() == "context" {
 				return c.doneObserved(x)
@@ -204,6 +262,22 @@ func (c *Ctx) knownNonNil(v ssa.Value, seen map[ssa.Value]bool) bool {
 		}
 		if g, ok := x.X.(*ssa.Global); ok {
 			return c.sentinelNonNil(g)
+		}
+		// an element of a slice field into which only values known to be non-nil are ever appended (the task queue: every
+		// task handed to pushTask is a function literal)
+		if ia, isIA := x.X.(*ssa.IndexAddr); isIA {
+			if qld, isLd := ia.X.(*ssa.UnOp); isLd && qld.Op == token.MUL {
+				if fa, isFA := qld.X.(*ssa.FieldAddr); isFA {
+					if _, fld := fieldOf(fa); fld != nil && c.sliceFieldElemsNonNil(fld) {
+						return true
+					}
+				}
+			}
+		}
+		// pkt.Message of the packet a PUBLISH parser returned without error: the parser stores a fresh Message on every
+		// successful path (the same fact R-C04-9 reports)
+		if c.parsedMessageNonNil(x) {
+			return true
 		}
 		// single-store local cell
 		if r := c.Resolve(v); r != v {
@@ -468,6 +542,221 @@ func (c *Ctx) nonNilAt(f *ssa.Function, v ssa.Value, at ssa.Instruction) bool {
 				return true
 			}
 		}
+	}
+	return false
+}
+
+// parsedMessageNonNil: ld loads field Message of a *pktPublish that is the result of pktPublish.Parse, and that parser
+// stores a freshly allocated Message into the packet it returns before every nil-error return.
+func (c *Ctx) parsedMessageNonNil(ld *ssa.UnOp) bool {
+	base, ok := isFieldLoad(ld, "pktPublish", "Message")
+	if !ok {
+		return false
+	}
+	ex, ok := c.Resolve(base).(*ssa.Extract)
+	if !ok || ex.Index != 0 {
+		return false
+	}
+	call, ok := ex.Tuple.(*ssa.Call)
+	if !ok {
+		return false
+	}
+	g := c.StaticCalleeOf(&call.Call)
+	if g == nil || g != c.Method("pktPublish", "Parse") || len(g.Blocks) == 0 {
+		return false
+	}
+	msgField := c.structField("pktPublish", "Message")
+	if msgField == nil {
+		return false
+	}
+	freshStore := func(in ssa.Instruction) bool {
+		st, ok := in.(*ssa.Store)
+		if !ok {
+			return false
+		}
+		fa, ok := st.Addr.(*ssa.FieldAddr)
+		if !ok {
+			return false
+		}
+		if _, fld := fieldOf(fa); fld != msgField {
+			return false
+		}
+		_, fresh := c.Resolve(st.Val).(*ssa.Alloc)
+		return fresh
+	}
+	n := 0
+	for _, ret := range returnsOf(g) {
+		if len(ret.Results) != 2 || !isNilConst(c.Resolve(ret.Results[1])) {
+			continue
+		}
+		n++
+		if !Dominated(g, ret, freshStore, PathQ{}) {
+			return false
+		}
+	}
+	// and nothing stores anything else into the field
+	other := false
+	for _, f := range c.Funcs {
+		eachInstr(f, func(in ssa.Instruction) {
+			st, ok := in.(*ssa.Store)
+			if !ok {
+				return
+			}
+			fa, ok := st.Addr.(*ssa.FieldAddr)
+			if !ok {
+				return
+			}
+			if _, fld := fieldOf(fa); fld == msgField && !freshStore(in) {
+				if _, isAl := c.Resolve(fa.X).(*ssa.Alloc); !isAl || f == g {
+					other = true
+				}
+			}
+		})
+	}
+	return n > 0 && !other
+}
+
+var (
+	sliceFieldNN = map[*types.Var]int{} // 0 unknown, 1 in progress / no, 2 yes
+	paramNN      = map[*ssa.Parameter]int{}
+)
+
+// sliceFieldElemsNonNil: every store to the slice-typed field fld in the package is a re-slice of the field, nil, or an
+// append to the field of single elements that are known to be non-nil.
+func (c *Ctx) sliceFieldElemsNonNil(fld *types.Var) bool {
+	if fld.Pkg() != c.TPkg || fld.Exported() {
+		return false
+	}
+	if _, isSl := fld.Type().Underlying().(*types.Slice); !isSl {
+		return false
+	}
+	switch sliceFieldNN[fld] {
+	case 1:
+		return false
+	case 2:
+		return true
+	}
+	sliceFieldNN[fld] = 1
+	ok, n := true, 0
+	for _, f := range c.Funcs {
+		eachInstr(f, func(in ssa.Instruction) {
+			switch x := in.(type) {
+			case *ssa.Store:
+				fa, isFA := x.Addr.(*ssa.FieldAddr)
+				if !isFA {
+					return
+				}
+				if _, g := fieldOf(fa); g != fld {
+					return
+				}
+				n++
+				if isNilConst(x.Val) {
+					return
+				}
+				if sl, isSl := x.Val.(*ssa.Slice); isSl {
+					if _, same := isLoadOfField(sl.X, fld); same {
+						return
+					}
+				}
+				base, elems, okc := c.appendChain(x.Val)
+				if _, same := isLoadOfField(base, fld); !okc || !same {
+					ok = false
+					return
+				}
+				for _, e := range elems {
+					if e.Single == nil || !c.knownNonNil(e.Single, map[ssa.Value]bool{}) {
+						ok = false
+					}
+				}
+			case *ssa.FieldAddr:
+				// the field's address used for anything but loads and stores
+				if _, g := fieldOf(x); g != fld {
+					return
+				}
+				for _, u := range *x.Referrers() {
+					switch y := u.(type) {
+					case *ssa.UnOp, *ssa.DebugRef:
+					case *ssa.Store:
+						if y.Addr != ssa.Value(x) {
+							ok = false
+						}
+					default:
+						ok = false
+					}
+				}
+			}
+		})
+	}
+	if ok && n > 0 {
+		sliceFieldNN[fld] = 2
+		return true
+	}
+	return false
+}
+
+// paramNonNil: p is a parameter of an unexported function or method of the package that is only ever called directly
+// (its value is never taken), and every call in the package passes a value known to be non-nil.
+func (c *Ctx) paramNonNil(p *ssa.Parameter) bool {
+	switch paramNN[p] {
+	case 1:
+		return false
+	case 2:
+		return true
+	}
+	paramNN[p] = 1
+	f := p.Parent()
+	if f == nil || f.Pkg != c.Pkg || f.Parent() != nil || f.Object() == nil || f.Object().Exported() {
+		return false
+	}
+	idx := -1
+	for i, q := range f.Params {
+		if q == p {
+			idx = i
+		}
+	}
+	if idx < 0 {
+		return false
+	}
+	// every mention of the function in the package's syntax is the callee of a call
+	if c.PP == nil || c.PP.TypesInfo == nil {
+		return false
+	}
+	callFun := map[*ast.Ident]bool{}
+	for _, file := range c.PP.Syntax {
+		ast.Inspect(file, func(n ast.Node) bool {
+			if call, ok := n.(*ast.CallExpr); ok {
+				switch fn := ast.Unparen(call.Fun).(type) {
+				case *ast.Ident:
+					callFun[fn] = true
+				case *ast.SelectorExpr:
+					callFun[fn.Sel] = true
+				}
+			}
+			return true
+		})
+	}
+	for id, obj := range c.PP.TypesInfo.Uses {
+		if obj == f.Object() && !callFun[id] {
+			return false
+		}
+	}
+	n := 0
+	ok := true
+	for _, g := range c.Funcs {
+		eachInstr(g, func(in ssa.Instruction) {
+			cc := callCommon(in)
+			if cc == nil || cc.IsInvoke() || cc.StaticCallee() != f {
+				return
+			}
+			n++
+			if idx >= len(cc.Args) || !c.knownNonNil(cc.Args[idx], map[ssa.Value]bool{}) {
+				ok = false
+			}
+		})
+	}
+	if ok && n > 0 {
+		paramNN[p] = 2
+		return true
 	}
 	return false
 }
